@@ -34,6 +34,18 @@ def scratch():
 
 def run(m):
     sc = scratch()
+    base = m.get('base')
+    if base:
+        bp = os.path.join(HERE, 'refactors', base + '.diff')
+        subprocess.check_call(['patch', '-p1', '-s', '-i', bp], cwd=os.path.join(sc, 'repo'), stdin=subprocess.DEVNULL)
+    try:
+        return run1(m, sc)
+    finally:
+        if base:
+            subprocess.check_call(['patch', '-R', '-p1', '-s', '-i', bp], cwd=os.path.join(sc, 'repo'), stdin=subprocess.DEVNULL)
+
+
+def run1(m, sc):
     path = os.path.join(sc, 'repo', m['file'])
     src = open(path).read()
     n = src.count(m['find'])
